@@ -1,8 +1,8 @@
 SPECIFICATION Spec
 CONSTANTS
   ReadData = TRUE
-  ReadRootPacks = FALSE
+  ReadRootPacks = TRUE
   VerifyFileHash = TRUE
-  ReadAllCopies = TRUE
+  ReadAllCopies = FALSE
 INVARIANTS Sound Undamaged
 CHECK_DEADLOCK FALSE
